@@ -1400,3 +1400,69 @@ func c05SubGraphKeys() {
 
 func VerifC05SubGraphKeys() { c05SubGraphKeys() }
 func VerifC06SubGraphKeys() { c05Mode = 6; c05SubGraphKeys() }
+
+// a value of a type-changing node (string -> int) waits in its successor's channel while the successor's control
+// dependency is interrupted: it survives the checkpoint in the value and in the stream form, whichever paradigm
+// interrupts and whichever resumes
+func c05WaitingValue() {
+	ctx := context.Background()
+	vcfg("fifo", 1)
+	vcfg("selectfirst", 1)
+	x := vsymStr("x")
+	counts := map[string]int{}
+	hit := func(k string) {
+		vMu.Lock()
+		counts[k]++
+		vMu.Unlock()
+	}
+	wf := NewWorkflow[string, int]()
+	wf.AddLambdaNode("A", InvokableLambda(func(ctx context.Context, in string) (int, error) { hit("A"); return len(in) + 1, nil })).AddInput(START)
+	wf.AddLambdaNode("B", InvokableLambda(func(ctx context.Context, in string) (string, error) { hit("B"); return in, nil })).AddInput(START)
+	wf.AddLambdaNode("C", InvokableLambda(func(ctx context.Context, in int) (int, error) { hit("C"); return in * 2, nil })).AddInput("A").AddDependency("B")
+	wf.End().AddInput("C")
+	store := &vStore{m: map[string][]byte{}}
+	var opts []GraphCompileOption
+	opts = append(opts, WithCheckPointStore(store))
+	switch vchoose("point", 3) {
+	case 0:
+		opts = append(opts, WithInterruptBeforeNodes([]string{"B"}))
+	case 1:
+		opts = append(opts, WithInterruptAfterNodes([]string{"A"}))
+	case 2:
+		opts = append(opts, WithInterruptBeforeNodes([]string{"C"}))
+	}
+	r, err := wf.Compile(ctx, opts...)
+	vassert(err == nil, "workflow compiles")
+	var out int
+	var rerr error
+	finished := false
+	for call := 0; call < 4 && !finished; call++ {
+		if vchoose("paradigm", 2) == 1 {
+			sr, e := r.Stream(ctx, x, WithCheckPointID("wv"))
+			rerr = e
+			if e == nil {
+				out, rerr = sr.Recv()
+				sr.Close()
+			}
+		} else {
+			out, rerr = r.Invoke(ctx, x, WithCheckPointID("wv"))
+		}
+		if rerr == nil {
+			finished = true
+			break
+		}
+		_, ok := ExtractInterruptInfo(rerr)
+		a5(ok, "waiting value: the (resumed) run is only ever stopped by interrupts")
+		a6(ok, "waiting value: only interrupt errors")
+		if !ok {
+			return
+		}
+	}
+	a5(finished && out == (len(x)+1)*2, "waiting value: the resumed run returns the uninterrupted result")
+	for _, k := range []string{"A", "B", "C"} {
+		a5(counts[k] == 1, "waiting value: node "+k+" executed exactly once over all calls")
+	}
+}
+
+func VerifC05WaitingValue() { c05WaitingValue() }
+func VerifC06WaitingValue() { c05Mode = 6; c05WaitingValue() }
